@@ -193,7 +193,7 @@ def run(repo: Repo, chk: Check, thorough: bool = False) -> None:
     fcalls = [c for c in calls_in(dep) if call_name(c) == 'format' and 'template' in norm(c.func)]
     if len(fcalls) < 2:
         chk.error(f'R10.5: {len(fcalls)} template.format(...) calls in deprecatedToUsefulText (2 confirmed by hand)')
-    validators = {n.name for n in dep.node.body if isinstance(n, ast.FunctionDef)}
+    validators = {g.name for g in repo.funcs.values() if g.qn.startswith(dep.qn + '.') and g.outer is dep}   # helpers defined inside, at any depth of its blocks
     for c in fcalls:
         for kw in c.keywords:
             v = kw.value
@@ -452,20 +452,33 @@ def _formatter_value(f: Func, v: ast.AST, fmts: Set[str]) -> Tuple[bool, str]:
 def _interp_guard(f: Func, cfg: CFG, call: ast.Call, var: str, validators: Set[str]) -> Tuple[bool, str]:
     """How is `var` made safe before it is interpolated into the reST template?"""
     st = cfg.stmt_of(call)
-    # (a) a dominating `if not validate(var): raise`
-    for n in f.walk():
-        if isinstance(n, ast.If) and isinstance(n.test, ast.UnaryOp) and isinstance(n.test.op, ast.Not) and \
-                isinstance(n.test.operand, ast.Call) and call_name(n.test.operand) in validators and \
-                any(isinstance(a, ast.Name) and a.id == var for a in n.test.operand.args) and \
-                n.body and isinstance(n.body[-1], ast.Raise) and cfg.dominates(n, st, no_exc=True):
-            return True, f'validated: `if not {norm(n.test.operand)}: raise` dominates the interpolation'
-    # (b) validated or neutralised: `if var is not None and not validate(var): var = var.replace('\n', ' '); var = f"`{var}`"`
-    for n in f.walk():
-        if isinstance(n, ast.If) and any(isinstance(c, ast.Call) and call_name(c) in validators and
-                                         any(isinstance(a, ast.Name) and a.id == var for a in c.args) for c in ast.walk(n.test)):
-            body_txt = ' '.join(norm(s) for s in n.body)
-            if cfg.dominates(n, st, no_exc=True) and "replace('\\n'" in body_txt and '`' in body_txt and 'not ' in norm(n.test):
-                return True, 'identifier, or neutralised (newlines removed, wrapped in back-ticks as literal text)'
+
+    # (a)+(b) every path to the interpolation either establishes validate(var) (or var is None: then it is not interpolated), or passes
+    # through the neutralising rewrite (newlines removed, wrapped in back-ticks as literal text).  Stated on edges, so that
+    # `if not ok: raise` / `if ok: ... else: raise` / `if not ok: raise else: ...` are the same thing.
+    def safe(e: ast.AST, pol: bool) -> bool:
+        if isinstance(e, ast.Call) and call_name(e) in validators and any(isinstance(a, ast.Name) and a.id == var for a in e.args):
+            return pol
+        if isinstance(e, ast.Compare) and len(e.ops) == 1 and isinstance(e.left, ast.Name) and e.left.id == var and norm(e.comparators[0]) == 'None':
+            return pol if isinstance(e.ops[0], ast.Is) else (not pol) if isinstance(e.ops[0], ast.IsNot) else False
+        if isinstance(e, ast.UnaryOp) and isinstance(e.op, ast.Not):
+            return safe(e.operand, not pol)
+        if isinstance(e, ast.BoolOp):
+            if isinstance(e.op, ast.And):
+                return any(safe(v, True) for v in e.values) if pol else all(safe(v, False) for v in e.values)
+            return all(safe(v, True) for v in e.values) if pol else any(safe(v, False) for v in e.values)
+        return False
+    wraps = [n for n in f.walk() if isinstance(n, ast.Assign) and any(isinstance(t, ast.Name) and t.id == var for t in n.targets) and
+             isinstance(n.value, ast.JoinedStr) and any(isinstance(v, ast.Constant) and '`' in str(v.value) for v in n.value.values)]
+    strips = [n for n in f.walk() if isinstance(n, ast.Assign) and any(isinstance(t, ast.Name) and t.id == var for t in n.targets) and
+              isinstance(n.value, ast.Call) and call_name(n.value) == 'replace' and n.value.args and const_str(n.value.args[0]) == '\n']
+    neutralisers = [w for w in wraps if any(cfg.dominates(s_, w, no_exc=True) for s_ in strips)]
+    safe_edges = [(nid, id(t), k) for nid, edges in cfg.succ.items() for (t, l, k) in edges if l is not None and safe(l[0], l[1])]
+    if safe_edges or neutralisers:
+        r = cfg.reachable(cfg.ENTRY, avoid_nodes=neutralisers, avoid_edges=safe_edges, no_exc=True)
+        if id(st) not in r:
+            return True, ('validated on every path to the interpolation' if not neutralisers else
+                          'identifier, or neutralised (newlines removed, wrapped in back-ticks as literal text), on every path')
     # (c) derived from the type-checked Version object
     vals = [n.value for n in f.walk() if isinstance(n, ast.Assign) and any(isinstance(t, ast.Name) and t.id == var for t in n.targets)]
     if vals and all(isinstance(v, ast.Call) and call_name(v) == 'public' for v in vals):
